@@ -370,3 +370,61 @@ def _ptr_roots(f, tr, local, depth=0):
 
 RAW_USERS = ("std::slice::from_raw_parts", "std::slice::from_raw_parts_mut", "std::ptr::copy_nonoverlapping", "std::ptr::copy", "std::ptr::read", "std::ptr::write", "std::ptr::write_bytes",
              "std::ptr::const_ptr::read", "std::ptr::mut_ptr::read", "std::ptr::mut_ptr::write", "std::ptr::read_unaligned", "std::ptr::write_unaligned")
+
+
+# --------------------------------------------------------------------------- MAP-GUARD
+
+def rule_map_guard(ctx, cfg, F):
+    from vlib.flow import relation_of_label
+    R = ctx.rule("MAP-GUARD", "around every mmap: the call is reached only where the very length it maps has been tested to be non-zero (a zero-length mmap fails: the received empty region "
+                 "must be handled, not mapped), and its result reaches a normal return only through the comparison with MAP_FAILED (mmap reports failure with (void*)-1, not with null)")
+    n = 0
+    for f in sorted(F.fns.values(), key=lambda x: x.path):
+        if not f.path.startswith("platform::unix"):
+            continue
+        for mb, mt in f.calls_to("libc::mmap"):
+            n += 1
+            ex = Expr(f)
+            tr = Tracer(f)
+            L = expr_strip_blocks(ex.of_operand(mt["args"][1]))
+            guarded = False
+            for s in sorted(f.live_blocks()):
+                if f.term(s)["t"] != "switch" or not f.dominates(s, mb):
+                    continue
+                ok_here, relevant = True, False
+                for tgt in f.succ(s):
+                    if f.is_cleanup(tgt) or not (tgt == mb or mb in f.reachable(tgt)):
+                        continue
+                    rels = [relation_of_label(f, lab) for lab in edge_label(f, s, tgt)]
+                    rels = [r for r in rels if r is not None and op_const(r[1]) == 0 and expr_strip_blocks(ex.of_operand(r[0])) == L]
+                    if rels:
+                        relevant = True
+                    if not any("eq" not in r[2] for r in rels):
+                        ok_here = False
+                if relevant and ok_here:
+                    guarded = True
+            if guarded:
+                R.ok("%s: mmap is reached only with its length tested non-zero" % f.path, f.loc(mb), cfg)
+            else:
+                R.violate("%s:zero-length-map" % f.path, "mmap can be reached with a length (%s) that was not tested against zero on that path: a zero-length region (e.g. one received from a peer) makes mmap fail and the receiver panic" % expr_str(L)[:80],
+                          f.path, f.loc(mb), config=cfg)
+            good = set()
+            for s in sorted(f.live_blocks()):
+                if f.term(s)["t"] != "switch":
+                    continue
+                for tgt in f.succ(s):
+                    for lab in edge_label(f, s, tgt):
+                        if lab["kind"] != "cmp" or lab["op"] not in ("Eq", "Ne"):
+                            continue
+                        for x, c in ((lab["a"], lab["b"]), (lab["b"], lab["a"])):
+                            is_failed = c.get("k") == "c" and ("MAP_FAILED" in (c.get("path") or c.get("s") or "") or op_const(c) in (-1, 2 ** 64 - 1))
+                            if is_failed and any(r.kind == "call" and r.block == mb for r in tr.roots_of_operand(x)):
+                                differs = lab["truth"] if lab["op"] == "Ne" else not lab["truth"]
+                                if differs:
+                                    good.add(tgt)
+            nxt = mt.get("to", -1)
+            if nxt >= 0 and f.all_paths_pass(nxt, good)[0] and good:
+                R.ok("%s: the mapping is used only after `!= MAP_FAILED`" % f.path, f.loc(mb), cfg)
+            else:
+                R.violate("%s:map-failure-unchecked" % f.path, "the result of mmap reaches a normal return without being compared with MAP_FAILED: a failed mapping becomes a region at address -1", f.path, f.loc(mb), config=cfg)
+    R.count("mmap_sites[%s]" % cfg, n)
